@@ -506,7 +506,7 @@ func checkC14(c *Ctx) {
 // ---------- C13 ----------
 func checkC13(c *Ctx) {
 	c.Res.Rule = "rules (well-formed and not) x objects with nested, shared (the same map reachable by two paths) and odd sub-values (named maps, map[interface{}]interface{}, slices); deep snapshot (structure, values, float bits, map identity) before and after Process, rules.Evaluate, parser.Evaluate and LastDebugErr().Error(), for verdict, error and recovered-panic outcomes; non-trivial = distinct (rule, object) whose evaluation reads at least one nested map"
-	n := c.budget(10000, 450000)
+	n := c.budget(20000, 450000)
 	for i := 0; i < n && !c.full(); i++ {
 		s, t := c.anyRuleText()
 		if len(s) > 600 {
@@ -757,7 +757,7 @@ func safeMarshal(v interface{}) (b []byte, err error) {
 
 func checkC19(c *Ctx) {
 	c.Res.Rule = "operation sequences on the exported NestedError API: a cause (errors.New, a %w-wrapping error, a custom Unwrap error) wrapped in 1-6 layers, Set with 0-4 key/value pairs per call (keys incl. err and msg; values encodable: ints, floats, strings with quotes/angle brackets/control characters, nested maps, slices, nil; not encodable: channels, funcs, NaN, +Inf, complex) before and after Error(), Error() and Original() repeated; texts compared with the Lean model byte for byte; non-trivial = distinct sequence with >= 2 layers and a Set"
-	n := c.budget(10000, 450000)
+	n := c.budget(20000, 450000)
 	msgPool := []string{"a", "b", "outer \"q\"", "with <angle> & amp", "tab\there", "nl\nline", "", "ünï", "x: y", "{\"j\":1}", "back\\slash", "\x01ctl", " sep"}
 	keyPool := []string{"k", "a_b", "Z", "attr_path", "err", "msg", "object_path_operand", "rule_operand", "k2", "0"}
 	valPool := []func() interface{}{func() interface{} { return 1 }, func() interface{} { return "s<>&\"" }, func() interface{} { return 2.5 }, func() interface{} { return nil },
